@@ -19,6 +19,21 @@ CLAIMED = {
         "content, offset and operation argument within the bound, deriving two values from one parent leaves the parent and the "
         "first derivative unchanged; decided per path by SMT, counterexamples replayed natively.",
         "L<=3, offset in [-2,2], index in [-4,6], histories of 2-3 operations; frozen modelled; Go 1.24 append growth rule"),
+    "C05": (
+        "Bounded symbolic execution of the real SetCall/CallAll (String, Bytes, Array, Dict, Relation), SeqArrowExpr.Eval (>>), "
+        "Concatenate (++) and OffsetExpr.Eval (n\\seq) against a denotation oracle on (index, value) pairs: unique-value-or-error "
+        "for every key, keys/offsets/holes preserved by >>, shift laws for ++ and offsets; SMT-decided per path, counterexamples "
+        "replayed natively. Known findings (++ index collision, sparse Bytes) are excluded by input class and still reported.",
+        "sequences of length 1..3 with one possible hole, offsets in [-2,2], arguments integer/fractional/non-number; dicts and "
+        "{|@,x|} relations of 1..2 entries with duplicate keys; element transformer an uninterpreted function; safe-tail (?:) and "
+        ":> are outside the registered bound"),
+    "C06": (
+        "Bounded symbolic execution of every Less/Equal/Kind implementation over an 18-kind value universe built through the real "
+        "constructors: trichotomy on all kind pairs, transitivity on triples inside the number/tuple/sequence families, and Rank/"
+        "OrderBy (with GOROOT sort interpreted) against 'number of strictly smaller keys' / non-decreasing permutation; "
+        "SMT-decided per path, counterexamples replayed natively.",
+        "numbers: any non-NaN float64 at top level, integers in [-2,2] nested; sequences L<=2; sets/dicts/relations <=2 members; "
+        "relations of 2..4 rows for rank/orderby; NaN excluded by assumption"),
     "C14": (
         "Bounded symbolic execution of the real //seq helpers (stdSeqContains/HasPrefix/HasSuffix/TrimPrefix/TrimSuffix/Sub/Split/"
         "Join, array helpers, Go strings/bytes functions interpreted from GOROOT) on abstract sequences over a 3-symbol alphabet "
